@@ -31,8 +31,30 @@ def sf_bxor(E, st, args, kw):
     return [('val', st, mk_bytes(units[0] if n == 1 else z3.Concat(*units)))]
 
 
-SPEC_FORMS.setdefault('bxor', sf_bxor)
-_interp.SPEC_BUILTINS.setdefault('bxor', BuiltinV('spec.bxor', sf_bxor))
+def _tz(E, st, v):
+    t = E.truth(v, st)
+    return z3.BoolVal(t) if isinstance(t, bool) else t
+
+
+def sf_conj(E, st, args, kw):
+    """conj(a, b, ...): conjunction of TOTAL boolean sub-clauses, evaluated eagerly (python `and` forks the evaluator and
+    costs two feasibility queries per operand; use `and` / `==>` when a later operand is only defined under an earlier one)"""
+    return [('val', st, mk_bool(z3.simplify(z3.And([_tz(E, st, a) for a in args]))))]
+
+
+def sf_disj(E, st, args, kw):
+    return [('val', st, mk_bool(z3.simplify(z3.Or([_tz(E, st, a) for a in args]))))]
+
+
+def sf_impl(E, st, args, kw):
+    """impl(a, b): eager implication; b must be total"""
+    a, b = args
+    return [('val', st, mk_bool(z3.simplify(z3.Implies(_tz(E, st, a), _tz(E, st, b)))))]
+
+
+for _nm, _fn in (('bxor', sf_bxor), ('conj', sf_conj), ('disj', sf_disj), ('impl', sf_impl)):
+    SPEC_FORMS.setdefault(_nm, _fn)
+    _interp.SPEC_BUILTINS.setdefault(_nm, BuiltinV('spec.' + _nm, _fn))
 
 
 # ---------------------------------------------------------------- helpers
